@@ -221,9 +221,30 @@ def _section_clauses(body_lines):
     return labels
 
 
+def _expand_includes(text, base, depth=0):
+    if depth > 5:
+        raise AnchorError('include depth')
+    out = []
+    for ln in text.split('\n'):
+        s = ln.strip()
+        if s.startswith('//@@ include '):
+            parts = shlex.split(s[len('//@@ include '):])
+            path = os.path.join(base, parts[0])
+            sub = open(path).read()
+            for kv in parts[1:]:
+                k, v = kv.split('=', 1)
+                sub = sub.replace('@' + k + '@', v)
+            out.append(f'// ---- begin include {parts[0]} {" ".join(parts[1:])}')
+            out.append(_expand_includes(sub, base, depth + 1).rstrip('\n'))
+            out.append(f'// ---- end include {parts[0]}')
+        else:
+            out.append(ln)
+    return '\n'.join(out)
+
+
 def generate(unit, template_path, repo=None, canary=False):
     repo = repo or REPO
-    text = open(template_path).read()
+    text = _expand_includes(open(template_path).read(), os.path.join(os.path.dirname(os.path.dirname(os.path.abspath(template_path)))))
     parts, defaults = _split_template(text)
     g = Generated(unit)
     dflt = {'rewrites': ['R1', 'R2', 'R3', 'R5', 'R13'], 'ghost': None, 'ghostarg': None, 'props': []}
@@ -335,7 +356,13 @@ def generate(unit, template_path, repo=None, canary=False):
                 raise AnchorError(f'template line {sd.lineno}: unknown sub-directive `{sd.kind}`')
         # ---- rewrites on the slice text (all newline preserving)
         if 'R1' in rewrites:
-            body, n = rw.r1_attrs(body, add_structural=structural)
+            dropd = ()
+            for sd in blk['subs']:
+                if sd.kind == 'opt':
+                    okv, _ = _parse_kv(sd.arg)
+                    if 'dropderive' in okv:
+                        dropd = tuple(okv['dropderive'][-1].split(','))
+            body, n = rw.r1_attrs(body, add_structural=structural, drop_extra=dropd)
             count('R1', n)
             fi.rewrites['R1'] = n
         if 'R2' in rewrites:
@@ -350,6 +377,11 @@ def generate(unit, template_path, repo=None, canary=False):
             body, n = rw.r17_pub_fields(body)
             count('R17', n)
             fi.rewrites['R17'] = n
+        if fi.is_fn:
+            body, n = rw.r18_mut_self(body)
+            count('R18', n)
+            if n:
+                fi.rewrites['R18'] = n
         if 'R13' in rewrites:
             body, n = rw.r13_const_str(body)
             count('R13', n)
@@ -464,6 +496,22 @@ def generate(unit, template_path, repo=None, canary=False):
                             j += 1
                         pos = st[j].end
                     inserts.append((pos, '\n' + ptxt.rstrip() + '\n', ('contract', fi.name, 'proof')))
+                elif 'at' in pkv and pkv['at'][0].startswith('afterloop'):
+                    k = int(pkv['at'][0][9:])
+                    loops = _loops(body, lay['body_open'])
+                    if k < 1 or k > len(loops):
+                        raise AnchorError(f'{fi.name}: proof anchor loop {k} not found')
+                    oi = [i for i, t in enumerate(st) if t.start == loops[k - 1][1]][0]
+                    ci = match_close(st, oi)
+                    inserts.append((st[ci].end, '\n' + ptxt.rstrip() + '\n', ('contract', fi.name, 'proof')))
+                elif 'at' in pkv and pkv['at'][0].startswith('beforeloop'):
+                    k = int(pkv['at'][0][10:])
+                    loops = _loops(body, lay['body_open'])
+                    if k < 1 or k > len(loops):
+                        raise AnchorError(f'{fi.name}: proof anchor loop {k} not found')
+                    # a labelled loop keeps its label: insert before the label if present
+                    pos = loops[k - 1][0]
+                    inserts.append((pos, ptxt.strip().replace('\n', ' ') + ' ', None))
                 elif 'at' in pkv and pkv['at'][0].startswith('loop'):
                     k = int(pkv['at'][0][4:])
                     loops = _loops(body, lay['body_open'])
